@@ -12,9 +12,9 @@ RULE = ("kinds: jtest_linear (quadratic H: exact step matrix M from basis vector
         "distinct by (kind, method, hamiltonian, layout, route, sign, seed)")
 ASSUMPTIONS = ["finite-difference J-test: delta=1e-5 in longdouble, threshold 1e-8; exact linear J-test threshold 1e4*eps*cond (splitting) / 1e3*solver tolerance (implicit)"]
 FLOORS = {"quick": {"jtest_linear": 24, "jtest_fd": 24, "reverse_probes": 24, "energy_runs": 6, "mask_probes": 36, "controls_fired": 3, "reuse_probes": 20,
-                    "hard_steps_accepted": 10, "hard_reverse_probes": 6, "hard_jtest_probes": 6},
+                    "reuse_nearby_state_probes": 40, "hard_steps_accepted": 10, "hard_reverse_probes": 6, "hard_jtest_probes": 6},
           "thorough": {"jtest_linear": 60, "jtest_fd": 60, "reverse_probes": 60, "energy_runs": 36, "mask_probes": 240, "controls_fired": 20, "reuse_probes": 150,
-                       "hard_steps_accepted": 60, "hard_reverse_probes": 40, "hard_jtest_probes": 40}}
+                       "reuse_nearby_state_probes": 300, "hard_steps_accepted": 60, "hard_reverse_probes": 40, "hard_jtest_probes": 40}}
 CASE_TIMEOUT = 1200
 SPLIT = ["SymplecticEulerSolver", "ABAs5o6HSolver", "BABs9o7HSolver"]
 LAYOUTS = ["qp", "pq", "interleaved"]
@@ -184,6 +184,10 @@ def run_case(spec):
             return _mask(spec, info, ham, rhs, y, h, rec, feats, J, mask, n)
     except AttributeError as e:
         rec.violate("mask_route_broken", "AttributeError", feats, err=repr(e)[:300])
+    except RuntimeError as e:
+        if "step shortened" not in str(e):
+            raise
+        rec.skipped = "the stage iteration did not converge at the probed step (another step size was taken: not the probed map)"
     return rec.out()
 
 
@@ -292,6 +296,25 @@ def _reuse(spec, info, ham, rhs, y, h, rec, feats, J, n):
         if back > unit * 10:
             rec.violate("time_reversibility", "step_h_then_minus_h_does_not_return", dict(feats, probe=i, reused=True), err=back, unit=unit * 10)
             break
+        # the object now sits at (t0, ~yi): a step from the SAME time but a NEARBY, different state (what a finite-difference Jacobian or a shadow
+        # trajectory on one object does) must be the step of that state, not of the one the object remembers
+        for delta_ in (1e-6, 1e-9, 1e-12):
+            yn = yi.copy()
+            yn[int(rng.integers(n))] += delta_
+            _, (dT3, dY3) = shared(r, t0, yn, {}, np.asarray(h, dtype=dt_))
+            if float(dT3) != float(h):
+                break
+            ref3 = fresh(yn, h)
+            err3 = float(np.max(np.abs(yn + dY3 - ref3)))
+            rec.bump("reuse_nearby_state_probes")
+            worst = max(worst, err3 / unit)
+            if err3 > unit:
+                rec.violate("history_dependent_step_map", "step_from_a_nearby_state_at_the_remembered_time_differs_from_a_fresh_one", dict(feats, probe=i, delta=delta_), err=err3, unit=unit)
+                break
+            # ... and back again, so that the next probe meets the same situation
+            _, (dT4, dY4) = shared(r, np.asarray(t0 + dT3, dtype=dt_), yn + dY3, {}, np.asarray(-h, dtype=dt_))
+            if float(dT4) != -float(dT3):
+                break
     rec.nontrivial = True
     rec.worst("reuse_error_over_unit", worst)
     rec.sample = {"spec": spec, "worst_error_over_unit": worst}
